@@ -199,9 +199,11 @@ static void ref_list(const char * b, int len, int chan, rlist_t * rl) {
 }
 
 static double ref_dbl(const char * s, int len) {
-    char tmp[80]; double d;
-    if (len < (int) sizeof tmp) { memcpy(tmp, s, (size_t) len); tmp[len] = 0; return strtod(tmp, NULL); }
-    { char * h = (char *) malloc((size_t) len + 1); memcpy(h, s, (size_t) len); h[len] = 0; d = strtod(h, NULL); free(h); }
+    /* the value the literal denotes: IEEE 488.2 allows white space around the exponent mark, so it is removed first
+     * (the library decodes "1 E3" as 1000 since its fix for C04; before that it stopped at the blank) */
+    char * h = (char *) malloc((size_t) len + 1); double d; int i, k = 0;
+    for (i = 0; i < len; i++) if (s[i] != ' ' && s[i] != '\t') h[k++] = s[i];
+    h[k] = 0; d = strtod(h, NULL); free(h);
     return d;
 }
 
